@@ -196,6 +196,36 @@ def run_case(case, ctx):
     ctx.check("apply==propagate", float(numpy.max(numpy.abs(at1 - U[Nt - 1]))), 0.0, dict(det, how="at(t_last)"))
     ctx.check("apply==propagate", float(numpy.max(numpy.abs(numpy.array(r_in.data) - rho0))), 0.0, dict(det, how="target unchanged by apply(copy=True)"))
 
+    # the same inside a basis context that the superoperator has not been looked at in: the results, transformed back, are the same states
+    from quantarhei import Manager
+    how_in = ["'all'", "own TimeAxis", "list of times", "scalar times", "at(t)"][int(rng.integers(5))]
+    with ctx.lib("apply inside eigenbasis_of(H)", mechanism=None):
+        with contextlib.redirect_stdout(out):
+            r_in2 = qr.ReducedDensityMatrix(data=rho0.copy())
+            hctx = qr.Hamiltonian(data=numpy.array(ham._data, dtype=float).copy())
+            with qr.eigenbasis_of(hctx):
+                S = numpy.array(Manager().basis_transformations[-1], dtype=float)
+                if how_in == "'all'":
+                    gi, ref_in = numpy.array(eU.apply("all", r_in2).data), ev
+                elif how_in == "own TimeAxis":
+                    gi, ref_in = numpy.array(eU.apply(t, r_in2).data), ev
+                elif how_in == "list of times":
+                    gi, ref_in = numpy.array(eU.apply([float(x) for x in t.data], r_in2).data), ev
+                elif how_in == "scalar times":
+                    gi, ref_in = numpy.array([numpy.array(eU.apply(float(tt), r_in2).data) for tt in t.data]), ev
+                else:
+                    k_at = int(rng.integers(Nt))
+                    ua = numpy.array(eU.at(float(t.data[k_at])).data)
+                    gi = numpy.einsum("ia,jb,abcd,kc,ld->ijkl", S, S, ua, S, S)[None]
+                    ref_in = None
+    if ref_in is not None:
+        back = numpy.einsum("ia,tab,jb->tij", S, gi, S)
+        ctx.check("apply==propagate", float(numpy.max(numpy.abs(back - ref_in))), tol * 4, dict(det, how=how_in, where="inside eigenbasis_of(H), superoperator not read there before"))
+    else:
+        ctx.check("apply==propagate", float(numpy.max(numpy.abs(gi[0] - U[k_at]))), 64 * EPS * dim * dim * Mn, dict(det, how="at(t) inside eigenbasis_of(H), transformed back", index=k_at))
+    with ctx.lib("reading the superoperator after the context", mechanism=None):
+        ctx.check("apply==propagate", float(numpy.max(numpy.abs(numpy.array(eU.data) - U))), 64 * EPS * dim * dim * Mn, dict(det, how="data after leaving the context"))
+
     # jit history vs all-at-once
     with ctx.lib("calculate_next history", mechanism=None):
         with contextlib.redirect_stdout(out):
